@@ -470,3 +470,30 @@ Proof.
   eapply (serial_never_excludes rho fuel cs); [exact Hall | | exact Hr].
   destruct signed; unfold in_range; cbn; [tauto | split; [apply Hz; reflexivity | exact I]].
 Qed.
+
+(* ---- the marker the lexer attached to the last element of a set is never lost: whatever the fold keeps or drops, a bounded
+   result is flagged extensible (the rule added with fix ba5357f) *)
+Lemma mark_ext_bounds t r : rmin (mark_ext t r) = rmin r /\ rmax (mark_ext t r) = rmax r.
+Proof. unfold mark_ext. destruct (t && _); split; reflexivity. Qed.
+
+Lemma mark_ext_true_flag r : bounded r = true -> rext (mark_ext true r) = true.
+Proof.
+  unfold mark_ext, bounded. cbn [andb]. destruct (rmin r), (rmax r); intro H; try reflexivity; discriminate H.
+Qed.
+
+Lemma trailing_marker_flagged fuel b o r cx rg :
+  range_of_constraint fuel {| cset := SetOp b o r; cext := cx |} = Ok rg ->
+  trailing_marker r = true -> bounded rg = true -> rext rg = true.
+Proof.
+  unfold range_of_constraint. cbn [cset cext]. intros H Ht Hb.
+  destruct (fold fuel b o r None true) as [fe| | |]; cbn [bind] in H; try discriminate H.
+  destruct (range_of_elem fuel fe) as [v| | |]; cbn [bind] in H; try discriminate H.
+  rewrite Ht in H. inversion H as [Hrg]; clear H.
+  set (w := match o with
+            | Inter => if is_size_elem b || match r with El (Size _) => true | _ => false end then set_size v else v
+            | _ => v
+            end) in *.
+  destruct (cx && match rmin (mark_ext true w), rmax (mark_ext true w) with None, None => false | _, _ => true end) eqn:E.
+  - reflexivity.
+  - apply mark_ext_true_flag. subst rg. unfold bounded in *. destruct (mark_ext_bounds true w) as [E1 E2]. rewrite E1, E2 in Hb. exact Hb.
+Qed.
